@@ -237,4 +237,11 @@ def r4_heap_layout(ctx):
     r.check(okx, "execute", "execute = new_from_env(self.ops, tx, env).run_to_end()", "execute returns %s" % s)
 
 
-RULES = [r1_no_bypass, r2_verdict, r3_environment, r4_heap_layout]
+def shared(ctx):
+    """'undecodable covenant ⇒ rejection': what counts as decodable is C12's decode table — exact operand reads, literal lengths, no tolerant short reads"""
+    from rules.engine import core
+    from rules.props import c12
+    core.import_rules(ctx, [c12.t2_t3_tables, c12.t4_literals], "X12")
+
+
+RULES = [r1_no_bypass, r2_verdict, r3_environment, r4_heap_layout, shared]
